@@ -28,7 +28,7 @@ func DefaultWeights() map[string]int {
 		"RelSet": 8, "RelExchange": 5, "BuilderAdd": 5,
 		"NewBatch": 6, "BatchAdd": 3, "BatchRemove": 3, "BatchExchange": 3, "BatchSetRel": 4,
 		"RelExchangeBatch": 3, "BatchRemoveEntities": 2,
-		"Reset": 1, "CacheRegister": 2, "CacheUnregister": 1, "RegisterType": 1, "QueryCheck": 4,
+		"Reset": 1, "CacheRegister": 2, "CacheUnregister": 1, "CacheReplace": 1, "RegisterType": 1, "QueryCheck": 4,
 	}
 }
 
@@ -735,6 +735,16 @@ func (g *Gen) gen(k string) *Op {
 			f = g.relFilter(Pick(R, g.relsUsed()))
 		}
 		return &Op{K: k, F: f, Slot: ip(g.nextSlot)}
+	case "CacheReplace":
+		if len(g.S.regs) < 2 {
+			return nil
+		}
+		g.nextSlot++
+		f := g.Filter(2, true)
+		if g.P.RelRegs && R.Chance(0.7) && len(g.relsUsed()) > 0 {
+			f = g.relFilter(Pick(R, g.relsUsed()))
+		}
+		return &Op{K: k, Slot: ip(Pick(R, sortedSlots(g.S.regs))), F: f, ID: g.nextSlot}
 	case "CacheUnregister":
 		if len(g.S.regs) == 0 {
 			return nil
